@@ -152,6 +152,9 @@ func (w *World) inc() *Incarnation {
 	return w.cur
 }
 
+// HasControllers tells whether the incarnation runs the controllers
+func (inc *Incarnation) HasControllers() bool { return len(inc.ctls) > 0 }
+
 // Cur returns the live incarnation
 func (w *World) Cur() *Incarnation { return w.inc() }
 
@@ -281,6 +284,9 @@ func (w *World) startIncarnation(opts Options) error {
 				return err
 			}
 		}
+		// The controllers activate asynchronously and the Atomix client registers a watch partition by
+		// partition; give the subscriptions a moment before the scenario starts (environment warm-up, not a verdict).
+		time.Sleep(150 * time.Millisecond)
 	}
 	return nil
 }
